@@ -3,6 +3,8 @@ package ssax
 import (
 	"go/constant"
 	"go/token"
+	"go/types"
+	"os"
 
 	"golang.org/x/tools/go/ssa"
 )
@@ -167,4 +169,444 @@ func ConstOfTableField(tf TableField, keyConst string) (constant.Value, bool) {
 		return nil, false
 	}
 	return fv[idx], true
+}
+
+// ---- searched row tables --------------------------------------------------------------------------------------------
+//
+// `var rows = []T{{key: k1, a: c1, …}, …}` consulted by a linear search `for _, r := range rows { if r.key == x { … r.a … } }`
+// (possibly in an expanded helper that returns the row). Under the assumption x == k the field is the constant of the
+// unique row whose key field is k.
+
+// RowField describes v = row.Field where row is the element of the package-level slice (or array) Global at which a
+// linear search stopped because row.KeyField == Key.
+type RowField struct {
+	Global   *ssa.Global
+	Field    int
+	KeyField int
+	Key      ssa.Value
+}
+
+// rowElem: v is the load of an element of a package-level slice/array: *(&(*G)[i]) or *(&G[i]).
+func rowElem(v ssa.Value) (*ssa.Global, *ssa.IndexAddr, bool) {
+	ld, ok := v.(*ssa.UnOp)
+	if !ok || ld.Op != token.MUL {
+		return nil, nil, false
+	}
+	ia, ok := ld.X.(*ssa.IndexAddr)
+	if !ok {
+		return nil, nil, false
+	}
+	return rowElemAddr(ia)
+}
+
+func rowElemAddr(ia *ssa.IndexAddr) (*ssa.Global, *ssa.IndexAddr, bool) {
+	switch x := ia.X.(type) {
+	case *ssa.Global:
+		return x, ia, true
+	case *ssa.UnOp:
+		if x.Op == token.MUL {
+			if g, ok := x.X.(*ssa.Global); ok {
+				return g, ia, true
+			}
+		}
+	}
+	return nil, nil, false
+}
+
+// rowSources traces a struct value back to element loads of package-level tables; every store into a local on the way
+// is reported in stores. ok=false if some alternative is anything else (zero-value alternatives that FeasibleEdges
+// cannot exclude included).
+func rowSources(v ssa.Value, seen map[ssa.Value]bool, elems *[]*ssa.IndexAddr, gl **ssa.Global, stores *[]*ssa.Store) bool {
+	v = rawStrip(v)
+	if seen[v] {
+		return true
+	}
+	seen[v] = true
+	if g, ia, ok := rowElem(v); ok {
+		if *gl != nil && *gl != g {
+			return false
+		}
+		*gl = g
+		*elems = append(*elems, ia)
+		return true
+	}
+	switch x := v.(type) {
+	case *ssa.Phi:
+		for _, e := range FeasibleEdges(x) {
+			if !rowSources(e, seen, elems, gl, stores) {
+				return false
+			}
+		}
+		return true
+	case *ssa.UnOp:
+		if x.Op != token.MUL {
+			return false
+		}
+		al, ok := x.X.(*ssa.Alloc)
+		if !ok {
+			return false
+		}
+		st := storesTo(al)
+		if len(st) == 0 {
+			return false
+		}
+		// the local must not be written any other way (its address must not escape into a call)
+		for _, r := range *al.Referrers() {
+			switch r.(type) {
+			case *ssa.Store, *ssa.UnOp, *ssa.FieldAddr, *ssa.DebugRef:
+			default:
+				return false
+			}
+		}
+		for _, s := range st {
+			*stores = append(*stores, s)
+			if !rowSources(s.Val, seen, elems, gl, stores) {
+				return false
+			}
+		}
+		return true
+	}
+	return false
+}
+
+// AsRowField recognises v (a field read of a struct) as a field of the row found by a linear search for key.
+func AsRowField(fn *ssa.Function, v ssa.Value, key ssa.Value) (RowField, bool) {
+	if key == nil {
+		return RowField{}, false
+	}
+	return AsRowFieldFn(fn, v, func(x ssa.Value) bool { return Resolve(x) == Resolve(key) })
+}
+
+// AsRowFieldFn is AsRowField where the value the key column is compared with is described by a predicate.
+func AsRowFieldFn(fn *ssa.Function, v ssa.Value, key func(ssa.Value) bool) (RowField, bool) {
+	v = rawStrip(v)
+	var base ssa.Value
+	field := -1
+	var use ssa.Instruction
+	switch x := v.(type) {
+	case *ssa.Field:
+		base, field, use = x.X, x.Field, x
+	case *ssa.UnOp:
+		if x.Op != token.MUL {
+			return RowField{}, false
+		}
+		fa, ok := x.X.(*ssa.FieldAddr)
+		if !ok {
+			return RowField{}, false
+		}
+		field, use = fa.Field, x
+		switch y := fa.X.(type) {
+		case *ssa.Alloc:
+			// a load of the whole local stands for the struct held in it
+			for _, r := range *y.Referrers() {
+				switch r.(type) {
+				case *ssa.Store, *ssa.UnOp, *ssa.FieldAddr, *ssa.DebugRef:
+				default:
+					return RowField{}, false
+				}
+			}
+			base = nil
+			var elems []*ssa.IndexAddr
+			var g *ssa.Global
+			var stores []*ssa.Store
+			seen := map[ssa.Value]bool{}
+			st := storesTo(y)
+			if len(st) == 0 {
+				return RowField{}, false
+			}
+			for _, s := range st {
+				stores = append(stores, s)
+				if !rowSources(s.Val, seen, &elems, &g, &stores) {
+					return RowField{}, false
+				}
+			}
+			return rowFieldFrom(fn, use, field, key, g, elems, stores)
+		case *ssa.IndexAddr:
+			g, ia, ok := rowElemAddr(y)
+			if !ok {
+				return RowField{}, false
+			}
+			return rowFieldFrom(fn, use, field, key, g, []*ssa.IndexAddr{ia}, nil)
+		default:
+			return RowField{}, false
+		}
+	default:
+		return RowField{}, false
+	}
+	var elems []*ssa.IndexAddr
+	var g *ssa.Global
+	var stores []*ssa.Store
+	if !rowSources(base, map[ssa.Value]bool{}, &elems, &g, &stores) {
+		return RowField{}, false
+	}
+	return rowFieldFrom(fn, use, field, key, g, elems, stores)
+}
+
+func rowFieldFrom(fn *ssa.Function, use ssa.Instruction, field int, key func(ssa.Value) bool, g *ssa.Global, elems []*ssa.IndexAddr, stores []*ssa.Store) (RowField, bool) {
+	if os.Getenv("DCVERIF_DEBUG_ROW") != "" {
+		println("ROW", fn.Name(), use.String(), g != nil, len(elems))
+	}
+	if g == nil || len(elems) == 0 || key == nil {
+		return RowField{}, false
+	}
+	// every element access uses the same index value (one search loop)
+	idx := elems[0].Index
+	for _, e := range elems {
+		if e.Index != idx {
+			return RowField{}, false
+		}
+	}
+	isElem := func(v ssa.Value) bool {
+		var es []*ssa.IndexAddr
+		var gg *ssa.Global
+		var ss []*ssa.Store
+		if !rowSources(v, map[ssa.Value]bool{}, &es, &gg, &ss) || gg != g || len(es) == 0 {
+			return false
+		}
+		for _, e := range es {
+			if e.Index != idx {
+				return false
+			}
+		}
+		return true
+	}
+	// the key comparison: <elem>.k == key whose equal edge every path to the use takes
+	for _, c := range Conds(fn) {
+		if c.Op != token.EQL && c.Op != token.NEQ {
+			continue
+		}
+		for _, pr := range [][2]ssa.Value{{c.X, c.Y}, {c.Y, c.X}} {
+			if !key(pr[1]) {
+				continue
+			}
+			kf := -1
+			switch x := rawStrip(pr[0]).(type) {
+			case *ssa.Field:
+				if isElem(x.X) {
+					kf = x.Field
+				}
+			case *ssa.UnOp:
+				if fa, ok := x.X.(*ssa.FieldAddr); ok && x.Op == token.MUL {
+					switch y := fa.X.(type) {
+					case *ssa.Alloc:
+						ok := len(storesTo(y)) > 0
+						for _, s := range storesTo(y) {
+							if !isElem(s.Val) {
+								ok = false
+							}
+						}
+						if ok {
+							kf = fa.Field
+						}
+					case *ssa.IndexAddr:
+						if gg, ia, ok := rowElemAddr(y); ok && gg == g && ia.Index == idx {
+							kf = fa.Field
+						}
+					}
+				}
+			}
+			if kf < 0 {
+				continue
+			}
+			eq, ok := c.EdgeWhere(token.EQL)
+			if !ok {
+				continue
+			}
+			if ReachableAvoiding(fn, use, []Edge{eq}, nil) {
+				continue
+			}
+			// the row read at the use is the row that was compared: after the latest element load the equal edge is
+			// taken before the use, and every copy on the way to the use is made after that load (no "previous row")
+			stale := false
+			for _, b := range fn.Blocks {
+				for _, in := range b.Instrs {
+					ia, ok := in.(*ssa.IndexAddr)
+					if !ok {
+						continue
+					}
+					gg, _, ok := rowElemAddr(ia)
+					if !ok || gg != g {
+						continue
+					}
+					if ReachableFrom(fn, ia, use, []Edge{eq}, nil) {
+						stale = true
+					}
+					for _, st := range stores {
+						if ld, isLd := rawStrip(st.Val).(*ssa.UnOp); isLd && ld.X == ssa.Value(ia) && ld.Block() == st.Block() {
+							continue // the row variable itself: written at every element load
+						}
+						if ReachableFrom(fn, st, ia, nil, nil) && ReachableFrom(fn, ia, use, nil, nil) {
+							stale = true
+						}
+					}
+				}
+			}
+			if stale {
+				continue
+			}
+			return RowField{Global: g, Field: field, KeyField: kf, Key: pr[1]}, true
+		}
+	}
+	return RowField{}, false
+}
+
+// RowEntries returns the rows of a package-level slice or array of structs initialised by a composite literal of
+// constants in the package initialiser and never written elsewhere in its package: row -> field -> constant.
+func RowEntries(g *ssa.Global) ([][]constant.Value, bool) {
+	if g.Pkg == nil {
+		return nil, false
+	}
+	init := g.Pkg.Func("init")
+	if init == nil {
+		return nil, false
+	}
+	var backing ssa.Value // the array whose elements the literal fills
+	nStores := 0
+	for _, b := range init.Blocks {
+		for _, in := range b.Instrs {
+			switch x := in.(type) {
+			case *ssa.Store:
+				if x.Addr == ssa.Value(g) {
+					nStores++
+					if sl, ok := rawStrip(x.Val).(*ssa.Slice); ok {
+						backing = sl.X
+					}
+				}
+			case *ssa.IndexAddr:
+				if x.X == ssa.Value(g) {
+					backing = g
+				}
+			}
+		}
+	}
+	if backing == nil || (backing != ssa.Value(g) && nStores != 1) || (backing == ssa.Value(g) && nStores != 0) {
+		return nil, false
+	}
+	for _, mem := range g.Pkg.Members {
+		fn, ok := mem.(*ssa.Function)
+		if !ok {
+			continue
+		}
+		fns := append([]*ssa.Function{fn}, fn.AnonFuncs...)
+		for _, f := range fns {
+			if f == init {
+				continue
+			}
+			if writesTable(f, g) {
+				return nil, false
+			}
+		}
+	}
+	// methods of the package's types
+	for _, mem := range g.Pkg.Members {
+		if t, ok := mem.(*ssa.Type); ok {
+			for _, f := range methodsOf(g.Pkg.Prog, t) {
+				if writesTable(f, g) {
+					return nil, false
+				}
+			}
+		}
+	}
+	var rows [][]constant.Value
+	for _, b := range init.Blocks {
+		for _, in := range b.Instrs {
+			ia, ok := in.(*ssa.IndexAddr)
+			if !ok || ia.X != backing || ia.Referrers() == nil {
+				continue
+			}
+			ic, ok := ia.Index.(*ssa.Const)
+			if !ok || ic.Value == nil {
+				return nil, false
+			}
+			i64, _ := constant.Int64Val(ic.Value)
+			for int64(len(rows)) <= i64 {
+				rows = append(rows, nil)
+			}
+			for _, r := range *ia.Referrers() {
+				fa, ok := r.(*ssa.FieldAddr)
+				if !ok {
+					if _, dbg := r.(*ssa.DebugRef); dbg {
+						continue
+					}
+					return nil, false
+				}
+				if fa.Referrers() == nil {
+					continue
+				}
+				for _, u := range *fa.Referrers() {
+					st, ok := u.(*ssa.Store)
+					if !ok || st.Addr != ssa.Value(fa) {
+						continue
+					}
+					c, ok := rawStrip(st.Val).(*ssa.Const)
+					if !ok || c.Value == nil {
+						continue
+					}
+					for len(rows[i64]) <= fa.Field {
+						rows[i64] = append(rows[i64], nil)
+					}
+					rows[i64][fa.Field] = c.Value
+				}
+			}
+		}
+	}
+	return rows, len(rows) > 0
+}
+
+func methodsOf(prog *ssa.Program, t *ssa.Type) []*ssa.Function {
+	var out []*ssa.Function
+	for _, typ := range []types.Type{t.Type(), types.NewPointer(t.Type())} {
+		ms := prog.MethodSets.MethodSet(typ)
+		for i := 0; i < ms.Len(); i++ {
+			if f := prog.MethodValue(ms.At(i)); f != nil && f.Pkg == t.Package() {
+				out = append(out, f)
+				out = append(out, f.AnonFuncs...)
+			}
+		}
+	}
+	return out
+}
+
+// writesTable: f stores to the global, or to an element (field) of the slice/array held in it.
+func writesTable(f *ssa.Function, g *ssa.Global) bool {
+	for _, b := range f.Blocks {
+		for _, in := range b.Instrs {
+			switch x := in.(type) {
+			case *ssa.Store:
+				if x.Addr == ssa.Value(g) {
+					return true
+				}
+				a := x.Addr
+				if fa, ok := a.(*ssa.FieldAddr); ok {
+					a = fa.X
+				}
+				if ia, ok := a.(*ssa.IndexAddr); ok {
+					if gg, _, ok := rowElemAddr(ia); ok && gg == g {
+						return true
+					}
+				}
+			}
+		}
+	}
+	return false
+}
+
+// ConstOfRowField evaluates the field for key == keyConst; exactly one row must carry that key.
+func ConstOfRowField(rf RowField, keyConst string) (constant.Value, bool) {
+	rows, ok := RowEntries(rf.Global)
+	if !ok {
+		return nil, false
+	}
+	var hit []constant.Value
+	n := 0
+	for _, r := range rows {
+		if rf.KeyField < len(r) && r[rf.KeyField] != nil && r[rf.KeyField].Kind() == constant.String && constant.StringVal(r[rf.KeyField]) == keyConst {
+			hit = r
+			n++
+		}
+	}
+	if n != 1 || rf.Field >= len(hit) || hit[rf.Field] == nil {
+		return nil, false
+	}
+	return hit[rf.Field], true
 }
